@@ -1452,15 +1452,15 @@ impl<SE: extensions::ShellExtensions> ExecuteInPipeline<SE> for ast::SimpleComma
                                 next_args = alias_pieces;
                             }
 
-                            let first_arg = next_args[0].as_str();
-
                             // Check if we're going to be invoking a special declaration builtin.
-                            // That will change how we parse and process args.
-                            if context
-                                .shell
-                                .builtins()
-                                .get(first_arg)
-                                .is_some_and(|r| !r.disabled && r.declaration_builtin)
+                            // That will change how we parse and process args. (An alias with an
+                            // empty value leaves no command word at all.)
+                            if let Some(first_arg) = next_args.first()
+                                && context
+                                    .shell
+                                    .builtins()
+                                    .get(first_arg.as_str())
+                                    .is_some_and(|r| !r.disabled && r.declaration_builtin)
                             {
                                 command_takes_assignments = true;
                             }
